@@ -2,7 +2,7 @@
 From Coq Require Import String.
 From Coq Require Import List Bool NArith.
 Import ListNotations.
-From DV Require Import Text Delta DeltaFacts.
+From DV Require Import Text Delta DeltaFacts DeltaLag.
 
 (* What has been written after any prefix of the input is a prefix both of what delta
    writes for that prefix on its own and of what it writes for the whole input. *)
@@ -21,6 +21,17 @@ Theorem C11_lag_bound : forall c s i l,
   length (minus_lines s') <= S (line_buffer_size c) /\
   length (plus_lines s') <= S (line_buffer_size c).
 Proof. exact hunk_step_lag. Qed.
+
+(* ... and so throughout a hunk body of any length: after every non-empty prefix of any run of
+   body lines, from any in-hunk state, the same bound holds (no bound on the hunk's size). *)
+Theorem C11_lag_bound_whole_hunk : forall c (ls : list (nat * text)) s,
+  in_hunk s = true -> Forall (fun il => body_line (snd il) = true) ls ->
+  forall pre post, ls = pre ++ post -> pre <> [] ->
+  let s' := steps c pre s in
+  buf s' = [] /\ in_hunk s' = true /\
+  length (minus_lines s') <= S (line_buffer_size c) /\
+  length (plus_lines s') <= S (line_buffer_size c).
+Proof. exact hunk_body_lag. Qed.
 
 (* the bound is reached: B = 1, two removed lines are both held *)
 Example C11_bound_tight :
